@@ -18,6 +18,9 @@ import PymeeusTables.Scale
 import Pymeeus.Gen.@K@.TablesSmall
 namespace Pymeeus.Gen@K@
 open Pymeeus Pymeeus.P@K@
+/- everything of C07-C09 lives in the sub-namespace `Helio`, so that the Python names used here
+   (`kepler_equation`, `ecliptical2equatorial`, `mean_obliquity`, …) cannot clash with other templates -/
+namespace Helio
 
 /-! ### The `Angle` operations used by the series code -/
 
@@ -270,4 +273,5 @@ def orbital_elements (jde : Num) (parameters1 parameters2 : List (List Num)) :
     .ok (angOfDeg ll, a, e, angOfDeg i, angOfDeg omega, angOfDeg arg)
   | _, _, _, _, _, _ => .error .other
 
+end Helio
 end Pymeeus.Gen@K@
